@@ -36,7 +36,10 @@ def gen_message(rng, echo, faulty):
                 break
             if kind == 'syntax':
                 texts.append(rng.choice([b'X 1 2', b'X ,', b'X!', b'X "a" "b"', b'X 1,,2', b'&', b'X #', b'BOOL 1e', b'SYST::A', b'STR "it\'s" !',
-                                         b"STR 'a\"b' 'c'", b'TWO 1,"it\'s" x', b'X "a;b" !', b'SET:U8 5,', b'TWO 1,"x" ,', b'ECHO:U8? 7 , ', b'SET:STR "a",']))
+                                         b"STR 'a\"b' 'c'", b'TWO 1,"it\'s" x', b'X "a;b" !', b'SET:U8 5,', b'TWO 1,"x" ,', b'ECHO:U8? 7 , ', b'SET:STR "a",',
+                                         b'X\x7f', b'SET:U8\x7f5', b'SET:U8 5\x7f', b'TWO 1\x7f,"x"', b'TWO 1,\x7f"x"', b'\x7fX', b'X\x80', b'SET:U8 5\xa0', b'X\xff',
+                                         b'SET:BYTES #1y', b'SET:BYTES #2zz', b'SET:BYTES #1 ', b'SET:BYTES #0', b'SET:BYTES #', b'SET:BYTES #a1', b'SET:BYTES #2-1ab',
+                                         b'SET:BYTES #2 5hello', b'BLK #1+', b'ECHO:BYTES? #1/']))
                 errs.append(None)
                 break
             if kind == 'undef':
